@@ -169,3 +169,47 @@ theorem publishSteps5_shape (p : Publish) (r : Resolution) (rl pl : Nat) (h : pu
   cases p.payload <;> rfl
 
 end GV
+
+namespace GV
+
+/-! ### SUBSCRIBE / UNSUBSCRIBE / DISCONNECT -/
+
+theorem filters_foldl (l : List Bytes) (acc : Nat) : l.foldl (fun acc x => acc + x.length) acc = acc + l.foldl (fun acc x => acc + x.length) 0 := by
+  induction l generalizing acc with
+  | nil => simp
+  | cons x r ih => simp only [List.foldl]; rw [ih, ih (0 + x.length)]; omega
+
+theorem unsub_filters_len (l : List Bytes) : stepsLen (l.flatMap stLenBytes) = l.length * 2 + l.foldl (fun acc x => acc + x.length) 0 := by
+  induction l with
+  | nil => rfl
+  | cons x r ih =>
+    simp only [List.flatMap_cons, stepsLen_append, stLenBytes_len, ih, List.foldl, List.length_cons]
+    rw [filters_foldl r (0 + x.length)]
+    omega
+
+theorem subs_foldl (l : List Subscription) (acc : Nat) :
+    l.foldl (fun acc x => acc + x.topicFilter.length) acc = acc + l.foldl (fun acc x => acc + x.topicFilter.length) 0 := by
+  induction l generalizing acc with
+  | nil => simp
+  | cons x r ih => simp only [List.foldl]; rw [ih, ih (0 + x.topicFilter.length)]; omega
+
+theorem sub_entries_len (l : List Subscription) (opt : Subscription → Nat) :
+    stepsLen (l.flatMap (fun s => stLenBytes s.topicFilter ++ [Step.u8 (opt s)])) =
+      l.length * 3 + l.foldl (fun acc x => acc + x.topicFilter.length) 0 := by
+  induction l with
+  | nil => rfl
+  | cons x r ih =>
+    simp only [List.flatMap_cons, stepsLen_append, stLenBytes_len, ih, List.foldl, List.length_cons, stepsLen_cons, stepsLen_nil, stepLen]
+    rw [subs_foldl r (0 + x.topicFilter.length)]
+    omega
+
+theorem stOptNum_vli_len (k : Nat) (o : Option Nat) (n : Nat) (h : optVliPropLen o = some n) : stepsLen (stOptNum .vli k o) = n := by
+  cases o with
+  | none => simp [optVliPropLen] at h; subst h; rfl
+  | some v =>
+    simp only [optVliPropLen] at h
+    cases hv : vliSize v with
+    | none => simp [hv] at h
+    | some s => simp [hv] at h; subst h; simp [stOptNum, stepLen, hv]; omega
+
+end GV
